@@ -23,6 +23,8 @@ def _alarm(signum, frame):
 
 
 def serve():
+    import logging
+    logging.disable(logging.CRITICAL)
     signal.signal(signal.SIGALRM, _alarm)
     warnings.simplefilter("always")
     out = sys.stdout
